@@ -181,6 +181,14 @@ def spaces(tier):
                         for sp in ('repr', 'decimal', 'sci', 'half',
                                    'quarter', 'hundredth'):
                             index.append((which, curve, k, sp, via, None))
+                        if via == 'fn':
+                            # the same number as a numpy scalar, and as a
+                            # Python integer when it is whole
+                            index.append((which, curve, k, 'npfloat', via,
+                                          None))
+                            if float(k * step).is_integer():
+                                index.append((which, curve, k, 'pyint', via,
+                                              None))
                         # the same command as the SECOND assembly of that
                         # curve: after a run without reference and after a
                         # run with another reference level
@@ -203,8 +211,16 @@ def spaces(tier):
 def run_case(case):
     step, which, curve = case['step'], case['dataset'], case['curve']
     k, sp, via = case['k'], case['spelling'], case['via']
+    as_type = None
+    if sp in ('npfloat', 'pyint'):
+        as_type, sp = sp, 'repr'
     text = None if sp == 'none' else spelling(sp, k, step)
     ref = None if text is None else float(text)
+    if as_type == 'npfloat':
+        import numpy as np
+        ref = np.float64(ref)
+    elif as_type == 'pyint':
+        ref = int(ref)
     db = None
     prior = case.get('prior')
     prior_text = None
@@ -251,8 +267,9 @@ def run_case(case):
         connection.close()
         if db:
             os.unlink(db)
-    where = '%s -r %s (level %r x step %r, dataset %d, via %s%s)' % (
-        curve, text, k, step, which, via,
+    where = '%s -r %s%s (level %r x step %r, dataset %d, via %s%s)' % (
+        curve, text, '' if as_type is None else ' passed as ' + as_type,
+        k, step, which, via,
         '' if prior is None else ', as second assembly after %s -r %s'
         % (curve, prior_text))
     nontrivial = False
